@@ -485,6 +485,8 @@ def ref_parse(lines):
             name, ty, vals = w[1], w[2], w[3:]
             if ty not in ("src", "dst", "dstdomain", "port", "method"):
                 raise NonCanonical(ty)
+            if name not in acls and name.lower() in [n.lower() for n in acls]:
+                raise NonCanonical("ACL name differing only in case")
             nolookup = False
             if vals[0] == "-n" and ty in ("dst", "dstdomain"):
                 nolookup, vals = True, vals[1:]
@@ -528,6 +530,8 @@ def ref_parse(lines):
                 if n == "manager" or n.startswith("!"):
                     raise NonCanonical(n)
                 if n not in acls:
+                    if n.lower() in [x.lower() for x in acls]:
+                        raise NonCanonical("ACL name differing only in case")
                     raise Invalid("undefined ACL " + n)
                 lits.append((neg, n))
             rules.append((w[1] == "allow", lits))
